@@ -264,8 +264,11 @@ impl GcVector {
         Self(Gc::new(GcCell::new(Vec::with_capacity(capacity))))
     }
 
-    pub fn addr(&self) -> *const Primitive {
-        self.0.borrow().as_ptr()
+    /// The identity of this list: where it lives in its cell (every alias shares the cell), not where
+    /// its elements live - an empty list has no buffer yet, and the buffer moves as the list grows.
+    pub fn addr(&self) -> *const Vec<Primitive> {
+        let view = self.0.borrow();
+        &*view as *const _
     }
 }
 
